@@ -1053,7 +1053,7 @@ def run(ctx):
         'calendar(obj, ...) derives from obj (given replaces, not given is kept); the convention of a derived calendar is not pinned',
         'calendar(key) on a key that was never registered is not asked; handles kept from earlier registrations are not queried '
         '(but may be registered again with calendar(handle)); calendars with the default 400-year range are asked loop-path questions only',
-        'small scope: MC windows of 7 (quick: a seeded 1-in-15 sample of 9 families = 3 month ends x 3 kinds of range) / 10 (thorough: exhaustive; '
+        'small scope: MC windows of 7 (quick: a seeded sample (MCMod / GenMod in the cfgs) of 9 families = 3 month ends x 3 kinds of range) / 10 (thorough: exhaustive; '
         'all 18 families of 7-day windows: 1 in 3) days, n in -8..8; registry MC with <= 2 (quick) / 3 (thorough, one key) objects',
         'drange is asked with bump 1b only (forwards, single-day and backwards)',
     ]
